@@ -73,6 +73,18 @@ SetConfigField(f, v) ==
   /\ Record("set_params", <<f, v>>, "ok", params')
   /\ UNCHANGED <<uni, orig, fits, done>>
 
+\* several names in ONE call: every one of them takes effect (a grid search sets two hyper-parameters at once)
+SetTwoFields(f1, v1, f2, v2) ==
+  /\ Can /\ f1 \in ConfigFields /\ f2 \in ConfigFields /\ f1 # f2 /\ v1 \in ConfigVals[f1] /\ v2 \in ConfigVals[f2]
+  /\ params' = [params EXCEPT !.config[f1] = v1, !.config[f2] = v2]
+  /\ Record("set_params", <<f1, v1, f2, v2>>, "ok", params')
+  /\ UNCHANGED <<uni, orig, fits, done>>
+SetNoiseAndField(t, f, v) ==
+  /\ Can /\ t \in PNoiseToks /\ f \in ConfigFields /\ v \in ConfigVals[f]
+  /\ params' = [params EXCEPT !.process_noise = PN(t), !.config[f] = v]
+  /\ Record("set_params", <<"process_noise", t, f, v>>, "ok", params')
+  /\ UNCHANGED <<uni, orig, fits, done>>
+
 \* the whole configuration is replaced
 SetConfig(cfg) ==
   /\ Can /\ cfg \in Configs /\ ConfigOK(cfg)
@@ -132,6 +144,8 @@ SetAny ==
            \/ \E t \in SNoiseToks : SetSNoise(t)
            \/ \E f \in ConfigFields : \E v \in ConfigVals[f] : SetConfigField(f, v)
            \/ \E cfg \in {x \in Configs : ConfigOK(x)} : SetConfig(cfg)
+           \/ \E f1 \in ConfigFields : \E f2 \in ConfigFields : \E v1 \in ConfigVals[f1] : \E v2 \in ConfigVals[f2] : SetTwoFields(f1, v1, f2, v2)
+           \/ \E t \in PNoiseToks : \E f \in ConfigFields : \E v \in ConfigVals[f] : SetNoiseAndField(t, f, v)
            \/ \E k \in BogusKeys : SetBogus(k) )
 QueryAny == Can /\ \E q \in {"transform", "mahalanobis", "score"} : Query(q)
 
@@ -153,10 +167,10 @@ View == <<uni, params, fits, done, Len(log)>>
 \* the sensor models, the calibration or a configuration field it was not asked to change
 ActFrame ==
   [][ \A k \in {"symbolic_model", "sensor_models", "calibration_map"} :
-        params'[k] # params[k] => (log' # log /\ log'[Len(log')].cmd = "set_params" /\ log'[Len(log')].args[1] = k) ]_vars
+        params'[k] # params[k] => (log' # log /\ log'[Len(log')].cmd = "set_params" /\ (log'[Len(log')].args[1] = k \/ (Len(log'[Len(log')].args) = 4 /\ log'[Len(log')].args[3] = k))) ]_vars
 ActConfigFrame ==
   [][ \A f \in ConfigFields :
-        params'.config[f] # params.config[f] => (log' # log /\ log'[Len(log')].cmd = "set_params" /\ log'[Len(log')].args[1] \in {f, "config"}) ]_vars
+        params'.config[f] # params.config[f] => (log' # log /\ log'[Len(log')].cmd = "set_params" /\ (log'[Len(log')].args[1] \in {f, "config"} \/ (Len(log'[Len(log')].args) = 4 /\ log'[Len(log')].args[3] = f))) ]_vars
 \* noise maps always name exactly the controls / sensors / readings of the model
 InvNoiseKeys == params.process_noise.keys = U.controls /\ params.sensor_noises.keys = U.sensors
 InvNoiseSane == params.process_noise.finite /\ params.process_noise.positive /\ params.sensor_noises.finite
